@@ -19,7 +19,7 @@ import fickling.ml as ml  # noqa: E402
 from fickling.exception import UnsafeFileError  # noqa: E402
 
 GLOBALS = ["collections.OrderedDict", "collections.Counter", "collections.deque",
-           "fractions.Fraction", "decimal.Decimal", "verif_sink.hit"]
+           "fractions.Fraction", "decimal.Decimal", "verif_sink.hit", "fractions.Decimal"]
 ADD = {"0": None, "1": ["fractions.Fraction"], "2": ["collections.Counter"],
        "3": ["fractions.Fraction", "collections.Counter", "decimal.Decimal"]}
 BASE0 = copy.deepcopy(ml.ML_ALLOWLIST)
@@ -103,7 +103,7 @@ def replay(hist, shared=False, mediated=False):
 def main():
     hists = json.load(open(sys.argv[1]))
     # the model's Base0 must be right about the real table
-    for g, want in zip(GLOBALS, [True, False, False, False, False, False]):
+    for g, want in zip(GLOBALS, [True, False, False, False, False, False, False]):
         m, n = g.rsplit(".", 1)
         if (m in BASE0 and n in BASE0[m]) != want:
             raise SystemExit(f"vocabulary assumption broken: {g} in built-in allowlist = {not want}")
